@@ -119,15 +119,17 @@ package compactindexsized
 //@   mode int
 //@   fnpure getter
 //@   requires min == 0 && 0 <= max && max <= 1099511627776 && getter != nil
-//@   requires forall t int :: 0 <= t && t < max ==> res1(getter, t) != ErrNotFound
-//@   requires forall j, k int :: 1 <= k && k <= max && 1 <= j && j <= max && anc(j, 2*k) ==> res0(getter, j-1).Hash < res0(getter, k-1).Hash
-//@   requires forall j, k int :: 1 <= k && k <= max && 1 <= j && j <= max && anc(j, 2*k+1) ==> res0(getter, j-1).Hash > res0(getter, k-1).Hash
 //@   ensures result1 == nil ==> exists t int :: 0 <= t && t < max && res1(getter, t) == nil && res0(getter, t).Hash == x && result0 == res0(getter, t).Value
-//@   ensures result1 == ErrNotFound ==> forall t int :: 0 <= t && t < max ==> res0(getter, t).Hash != x
+//@   ensures (forall t int :: 0 <= t && t < max ==> res1(getter, t) != ErrNotFound)
+//@ |   && (forall j, k int :: 1 <= k && k <= max && 1 <= j && j <= max && anc(j, 2*k) ==> res0(getter, j-1).Hash < res0(getter, k-1).Hash)
+//@ |   && (forall j, k int :: 1 <= k && k <= max && 1 <= j && j <= max && anc(j, 2*k+1) ==> res0(getter, j-1).Hash > res0(getter, k-1).Hash)
+//@ |   && result1 == ErrNotFound ==> (forall t int :: 0 <= t && t < max ==> res0(getter, t).Hash != x)
 //@   ensures result1 != nil && result1 != ErrNotFound ==> exists t int :: 0 <= t && t < max && res1(getter, t) == result1
 //@   use forall t int :: ancRoot(t)
 //@   loop 0 invariant 0 <= index
-//@   loop 0 invariant forall t int :: 1 <= t && t <= max && res0(getter, t-1).Hash == x ==> anc(t, index+1)
+//@   loop 0 invariant (forall j, k int :: 1 <= k && k <= max && 1 <= j && j <= max && anc(j, 2*k) ==> res0(getter, j-1).Hash < res0(getter, k-1).Hash)
+//@ |   && (forall j, k int :: 1 <= k && k <= max && 1 <= j && j <= max && anc(j, 2*k+1) ==> res0(getter, j-1).Hash > res0(getter, k-1).Hash)
+//@ |   ==> (forall t int :: 1 <= t && t <= max && res0(getter, t-1).Hash == x ==> anc(t, index+1))
 //@   loop 0 use forall t int :: t > index+1 ==> ancSplit(t, index+1)
 //@   loop 0 use forall t int :: ancBelow(t, index+1)
 //@   loop 0 decreases max - index
@@ -152,13 +154,18 @@ package compactindexsized
 //@   ensures result1 == nil ==> forall j int :: 0 <= j && j < int(b.OffsetWidth) ==> result0.Value[j] == fbyte(b.Entries, i*int(b.Stride)+3+j)
 //@   ensures result1 != nil ==> result1 != ErrNotFound
 
+// Soundness (a nil error returns the value of a stored entry with the key's hash) holds for ANY file content; completeness
+// (ErrNotFound means no stored entry has the key's hash) is stated under the search-tree order of the stored entries (the
+// order eytzinger() produces from strictly ascending hashes, lemma eytzOrder) and entry reads that do not fail with ErrNotFound.
 //@ func (*Bucket) Lookup
 //@   mode int
-//@   requires b != nil && b.NumEntries <= 16777216
-//@   requires forall t int :: 0 <= t && t < int(b.NumEntries) ==> res1(b.loadEntry, t) != ErrNotFound
-//@   requires forall j, k int :: 1 <= k && k <= int(b.NumEntries) && 1 <= j && j <= int(b.NumEntries) && anc(j, 2*k) ==> res0(b.loadEntry, j-1).Hash < res0(b.loadEntry, k-1).Hash
-//@   requires forall j, k int :: 1 <= k && k <= int(b.NumEntries) && 1 <= j && j <= int(b.NumEntries) && anc(j, 2*k+1) ==> res0(b.loadEntry, j-1).Hash > res0(b.loadEntry, k-1).Hash
-//@   ensures result1 == nil ==> exists t int :: 0 <= t && t < int(b.NumEntries) && res1(b.loadEntry, t) == nil && result0 == res0(b.loadEntry, t).Value
+//@   requires b != nil && b.Entries != nil
+//@   requires b.HashLen == 3 && int(b.OffsetWidth) <= 252 && int(b.Stride) == 3 + int(b.OffsetWidth)
+//@   ensures result1 == nil ==> exists t int :: 0 <= t && t < int(b.NumEntries) && res1(b.loadEntry, t) == nil && res0(b.loadEntry, t).Hash == target && result0 == res0(b.loadEntry, t).Value
+//@   ensures (forall t int :: 0 <= t && t < int(b.NumEntries) ==> res1(b.loadEntry, t) != ErrNotFound)
+//@ |   && (forall j, k int :: 1 <= k && k <= int(b.NumEntries) && 1 <= j && j <= int(b.NumEntries) && anc(j, 2*k) ==> res0(b.loadEntry, j-1).Hash < res0(b.loadEntry, k-1).Hash)
+//@ |   && (forall j, k int :: 1 <= k && k <= int(b.NumEntries) && 1 <= j && j <= int(b.NumEntries) && anc(j, 2*k+1) ==> res0(b.loadEntry, j-1).Hash > res0(b.loadEntry, k-1).Hash)
+//@ |   && result1 == ErrNotFound ==> (forall t int :: 0 <= t && t < int(b.NumEntries) ==> res0(b.loadEntry, t).Hash != target)
 //@   ensures result1 != nil && result1 != ErrNotFound ==> exists t int :: 0 <= t && t < int(b.NumEntries) && res1(b.loadEntry, t) == result1
 
 // ---- header ----
@@ -250,6 +257,7 @@ package compactindexsized
 // the layout step is established here (the eytzinger precondition 0 + sz(n, 1) <= n by lemma szRoot).
 //@ func sortWithCompare
 //@   mode int
+//@   fnpure compare
 //@   requires compare != nil && len(a) <= 2305843009213693952
 //@   modifies a
 //@   use szRoot(len(a)) && unfold(lo(len(a), 1))
